@@ -279,6 +279,12 @@ impl DIDUrl {
 
   /// Parse a [`DIDUrl`] from a string.
   pub fn parse(input: impl AsRef<str>) -> Result<Self, Error> {
+    let input: &str = input.as_ref();
+    // The underlying parser ignores surrounding whitespace and control characters but keeps them
+    // in the stored string, which shifts every component: only accept input it parses verbatim.
+    if input.trim_matches(|ch: char| ch.is_ascii_control() || ch.is_ascii_whitespace()) != input {
+      return Err(Error::InvalidScheme);
+    }
     let did_url: BaseDIDUrl = BaseDIDUrl::parse(input)?;
     Self::from_base_did_url(did_url)
   }
